@@ -41,6 +41,7 @@ func checkC11(c *Ctx) (string, error) {
 		checkPublishBeforeWake(c, rw.RT("internal/lib/runtime"))
 		checkValueSentinel(c, rw.RT("internal/lib/sync/atomic"))
 		checkSemaLocks(c, rw.RT("internal/lib/runtime"))
+		checkLookupInsertAtomic(c, rw.RT("internal/lib/runtime"))
 		checkTicketDiscipline(c, rw.RT("internal/lib/runtime"))
 		c.Config = ""
 		if lc.String() == defaultCfg.String() {
@@ -641,22 +642,54 @@ func checkGoRecord(c *Ctx, sp *packages.Package) {
 	// heap allocation, count
 	v := newFnView(sp, gofd)
 	heap, cnt := false, false
+	heapWhy := "pthreadCreate call not found"
+	var implDefs func(e ast.Expr, depth int) (bool, string)
+	implDefs = func(e ast.Expr, depth int) (bool, string) {
+		if depth > 6 {
+			return false, "definition chain too deep"
+		}
+		e = ast.Unparen(e)
+		if cl, ok := e.(*ast.CompositeLit); ok && len(cl.Elts) >= 1 { // Expr{impl, typ}
+			el := cl.Elts[0]
+			if kv, isKV := el.(*ast.KeyValueExpr); isKV {
+				el = kv.Value
+			}
+			return implDefs(el, depth+1)
+		}
+		if name, _, ok := v.call(e); ok {
+			switch name {
+			case "ssa.Builder.aggregateAllocU", "ssa.Builder.aggregateAlloc", "ssa.Builder.aggregateMalloc":
+				return true, ""
+			}
+			return false, "record comes from " + name
+		}
+		defs := v.allDefs(e)
+		if len(defs) == 0 {
+			return false, "record " + exprStr(e) + " has no visible definition"
+		}
+		for _, d := range defs {
+			if d == nil {
+				return false, "opaque definition of " + exprStr(e)
+			}
+			if ok, why := implDefs(d, depth+1); !ok {
+				return false, why
+			}
+		}
+		return true, ""
+	}
 	for _, call := range callsIn(gofd.Body) {
 		name, args, ok := v.call(call)
 		if !ok {
 			continue
 		}
-		if name == "ssa.Builder.aggregateAllocU" || name == "ssa.Builder.aggregateAlloc" || name == "ssa.Builder.aggregateMalloc" {
-			heap = true
-		}
-		if name == "ssa.Builder.aggregateAlloca" {
-			heap = false
+		if name == "ssa.Builder.pthreadCreate" && len(args) == 4 {
+			heap, heapWhy = implDefs(args[3], 0)
 		}
 		if name == "ssa.Package.routine" && len(args) == 4 && strings.ReplaceAll(exprStr(args[3]), " ", "") == "len(args)" {
 			cnt = true
 		}
 	}
-	c.Check(heap, "R11.5", "go record outlives the spawning frame", gofd.Pos(), "argument record allocated on the GC heap", "argument record is not heap allocated: the new thread reads a dead stack frame when the spawner returns first")
+	c.Check(heap, "R11.5", "go record outlives the spawning frame", gofd.Pos(), "every definition of the record handed to pthreadCreate is a GC-heap allocation", "argument record is not heap allocated on every path ("+heapWhy+"): the new thread reads a dead stack frame when the spawner returns first")
 	c.Check(cnt, "R11.5", "go record argument count", gofd.Pos(), "routine unpacks len(args) arguments", "the thunk is generated for a different number of arguments than were packed")
 }
 
